@@ -139,7 +139,7 @@ class CHECK(Check):
             nb = 3000 if tier == "quick" else 60000
             for _ in range(nb):
                 k = rng.choice(["int", "float", "lit", "date"])
-                size = rng.choice([2, 4, 8]) if k in ("int", "float") else rng.randint(1, 8)
+                size = rng.choice([2, 4, 8, 2, 4, 8, 1, 3, 5, 6]) if k in ("int", "float") else rng.randint(1, 8)
                 fd = {"k": k, "size": size, "start": rng.randint(0, 3)}
                 if k == "float":
                     fd.update({"dd": 2, "fmt": "F", "sep": "."})
